@@ -3,6 +3,7 @@ package main
 // Lock-step execution of one case on the implementation and on the Lean model.
 
 import (
+	"io"
 	"unicode/utf8"
 	"encoding/hex"
 	"encoding/json"
@@ -418,8 +419,17 @@ func runCase(c *Case, d *driver, opts runOpts) (res caseResult) {
 				lens = append(lens, len(b))
 				j++
 			}
-			for _, ch := range chunksFor(c, data, lens, rng) {
-				im.be.script = append(im.be.script, chunk{data: append([]byte(nil), ch...)})
+			chs := chunksFor(c, data, lens, rng)
+			lastGroup := j >= len(c.Items)
+			for k, ch := range chs {
+				if c.Chunk != 0 && rng.intn(9) == 0 {
+					im.be.script = append(im.be.script, chunk{}) // a read that brings nothing and no error: try again
+				}
+				ck := chunk{data: append([]byte(nil), ch...)}
+				if lastGroup && k == len(chs)-1 && len(chs) > 1 && rng.intn(3) == 0 {
+					ck.err = io.EOF // the last bytes arrive together with the end of the stream
+				}
+				im.be.script = append(im.be.script, ck)
 			}
 			if useModel && len(data) > 0 {
 				_ = d.send("feed " + hex.EncodeToString(data))
@@ -447,6 +457,20 @@ func runCase(c *Case, d *driver, opts runOpts) (res caseResult) {
 					break
 				}
 				if err != nil {
+					if n := len(im.be.script); n > 0 || im.vt.Buffered() > 0 {
+						left := im.vt.Buffered()
+						for _, ck := range im.be.script {
+							left += len(ck.data)
+						}
+						if left > 0 && !(len(im.be.script) == 0 && stepIncompleteTail(data)) {
+							for _, pr := range []string{"C01", "C16"} {
+								addF(finding{Step: step, Kind: "monitor", Prop: pr, Clause: "loop-stopped-early", Tags: "eof",
+									Detail: fmt.Sprintf("the read loop ended with %v although %d byte(s) of the stream were still to be interpreted", err, left)})
+							}
+							res.Cut = true
+							break
+						}
+					}
 					tags := "eof"
 					compare("eof", &tags)
 					break
@@ -719,6 +743,20 @@ func graphemeRunTokens(run []byte, st *graphemeMergeState) string {
 		parts = append(parts, fmt.Sprintf("%x:%d:%d:%x", cl.text, w, b2i(merge), stored))
 	}
 	return strings.Join(parts, ",")
+}
+
+// stepIncompleteTail: the data ends inside a multi-byte character (those bytes stay buffered at
+// the end of the stream: the known finding eof-inside-character, not an early stop)
+func stepIncompleteTail(data []byte) bool {
+	for k := len(data) - 1; k >= 0 && k >= len(data)-3; k-- {
+		if data[k] >= 0xc0 {
+			return !utf8.FullRune(data[k:])
+		}
+		if data[k] < 0x80 {
+			return false
+		}
+	}
+	return false
 }
 
 // peekTags gives a rough label for the bytes being processed when a step panicked.
